@@ -6,6 +6,7 @@
 #include "vharness.hpp"
 #include <kernel/lafem/dense_vector.hpp>
 #include <kernel/lafem/sparse_matrix_csr.hpp>
+#include <kernel/lafem/sparse_layout.hpp>
 #include <kernel/adjacency/graph.hpp>
 #include <kernel/util/memory_pool.hpp>
 #include <map>
@@ -52,6 +53,21 @@ struct SlotT : ISlot
   }
 };
 
+// a SparseLayout object as a slot (fam 2): holds references to index arrays only
+template<class IT>
+struct LaySlot : ISlot
+{
+  typedef SparseLayout<IT, SparseLayoutId::lt_csr> LT;
+  LT l;
+  explicit LaySlot(LT&& x) : l(std::move(x)) {}
+  std::vector<ArrInfo> arrays() const override
+  {
+    std::vector<ArrInfo> r;
+    for(std::size_t k = 0; k < l._indices.size(); ++k) { ArrInfo a; a.el = false; a.ptr = l._indices[k]; a.n = l._indices_size[k]; a.esize = sizeof(IT); a.tok = -1; r.push_back(a); }
+    return r;
+  }
+};
+
 template<class DT, class IT> using DV = DenseVector<DT, IT>;
 template<class DT, class IT> using CSR = SparseMatrixCSR<DT, IT>;
 
@@ -85,6 +101,12 @@ template<class DT, class IT> CSR<DT, IT> create_csr(const std::string& var, long
 {
   if(var == "bare") return CSR<DT, IT>(Index(2), Index(3));
   if(var == "nz0") return CSR<DT, IT>(Index(2), Index(3), Index(0));   // allocated, but with size-0 value / column index arrays
+  if(var == "wide")
+  {
+    DenseVector<IT, IT> ci(Index(5)), rp(Index(3)); DenseVector<DT, IT> va(Index(5), DT(tok));
+    ci(0, IT(0)); ci(1, IT(1)); ci(2, IT(2)); ci(3, IT(0)); ci(4, IT(2)); rp(0, IT(0)); rp(1, IT(3)); rp(2, IT(5));
+    return CSR<DT, IT>(Index(2), Index(3), ci, va, rp);
+  }
   DenseVector<IT, IT> ci(Index(3)), rp(Index(3)); DenseVector<DT, IT> va(Index(3), DT(tok));
   ci(0, IT(0)); ci(1, IT(2)); ci(2, IT(1)); rp(0, IT(0)); rp(1, IT(2)); rp(2, IT(3));
   return CSR<DT, IT>(Index(2), Index(3), ci, va, rp);
@@ -202,7 +224,53 @@ static void apply_step(World& w, const vj::Value& st)
     });
     return;
   }
+  if(op == "takelayout")
+  {
+    with_type(1, ps->ty, [&](auto tags) {
+      typedef typename decltype(tags)::type CS;
+      if constexpr (IsCSR<CS>::value)
+      {
+        typedef typename CS::IndexType IT;
+        // L = M.layout(), then stored by MOVE construction (as when kept in a std::vector or a member)
+        SparseLayout<IT, SparseLayoutId::lt_csr> tmp(cont<CS>(ps).layout());
+        auto* p = new LaySlot<IT>(std::move(tmp)); p->fam = 2; p->ty = std::is_same<IT, u64>::value ? 1 : 3; w.slots[dst].reset(p);
+      }
+    });
+    return;
+  }
+  if(op == "movelayout")
+  {
+    if(ps->ty == 1) static_cast<LaySlot<u64>*>(w.slots.at(dst).get())->l = std::move(static_cast<LaySlot<u64>*>(ps)->l);
+    else static_cast<LaySlot<u32>*>(w.slots.at(dst).get())->l = std::move(static_cast<LaySlot<u32>*>(ps)->l);
+    return;
+  }
+  if(op == "assignlayout")
+  {
+    ISlot* pd = w.slots.at(dst).get();
+    with_type(1, pd->ty, [&](auto tagd) {
+      typedef typename decltype(tagd)::type CD;
+      if constexpr (IsCSR<CD>::value)
+      {
+        typedef typename CD::IndexType IT;
+        cont<CD>(pd) = static_cast<LaySlot<IT>*>(ps)->l;
+      }
+    });
+    return;
+  }
   int ty2 = (int)a["ty"].as_int();
+  if(op == "fromlayout" && ps->fam == 2)
+  {
+    with_type(1, ty2, [&](auto tagd) {
+      typedef typename decltype(tagd)::type CD;
+      if constexpr (IsCSR<CD>::value)
+      {
+        typedef typename CD::IndexType IT;
+        if((ps->ty == 1) == std::is_same<IT, u64>::value)
+        { auto* p = new SlotT<CD>(CD(static_cast<LaySlot<IT>*>(ps)->l)); p->fam = 1; p->ty = ty2; w.slots[dst].reset(p); }
+      }
+    });
+    return;
+  }
   if(op == "fromlayout")
   {
     with_type(1, ps->ty, [&](auto tags) {
